@@ -315,6 +315,10 @@ func makeErr(f model.Fault, k model.CallKey) error {
 			return ggql.Errors{perr}
 		}
 		return perr
+	case "plainresolve":
+		// a plain Go error (no *ggql.Error) that wraps the exported ErrResolve: what a gateway resolver hands on when the
+		// downstream root refused its request before running it. It is an error of THIS field like any other
+		return fmt.Errorf("downstream: %w, could not determine operation to evaluate (node %d field %s)", ggql.ErrResolve, k.Node, k.Field)
 	case "sentinel":
 		// an application-owned error VALUE built once with the public ErrResolve and returned by every failing site,
 		// in every request: whatever ggql does with it must not accumulate on the instance
